@@ -59,6 +59,7 @@ class Module:
         if not isinstance(module, Module):
             raise TypeError("All submodules must be of type Module")
         
+        self._parameters.pop(name, None)
         self._submodules[name] = module
         object.__setattr__(self, name, module)
         
@@ -68,6 +69,7 @@ class Module:
         if not isinstance(parameter, Parameter):
             raise TypeError("All parameters must be of type Parameter")
         
+        self._submodules.pop(name, None)
         self._parameters[name] = parameter
         object.__setattr__(self, name, parameter)
         
@@ -90,7 +92,11 @@ class Module:
             self.register_module(__name, __value)
         elif isinstance(__value, Parameter):
             self.register_parameter(__name, __value)
-        else:  
+        else:
+            # re-assigning a registered name to something else replaces its registration
+            for registry in ('_parameters', '_submodules'):
+                if __name in self.__dict__.get(registry, ()):
+                    del self.__dict__[registry][__name]
             object.__setattr__(self, __name, __value)
     
     def parameters(self) -> list['Parameter']:
